@@ -236,6 +236,16 @@ impl<C: CompareTrait> CompareTrait for Ordered<C> {
     }
 }
 
+/// Probe value; integers as a deferred word (`Value::UnsignedWord/SignedWord`) when `word` is set: same value, other form.
+fn to_value_as(v: &Val, word: bool) -> jbk::Value {
+    match v {
+        Val::U(x) if word => jbk::Value::UnsignedWord((*x).into()),
+        Val::S(x) if word => jbk::Value::SignedWord((*x).into()),
+        Val::Ref(r) if word => jbk::Value::UnsignedWord((*r as u64).into()),
+        _ => to_value(v),
+    }
+}
+
 fn to_value(v: &Val) -> jbk::Value {
     match v {
         Val::U(x) => jbk::Value::Unsigned(*x),
@@ -463,14 +473,15 @@ fn lookups(case: &DirCase, inst: &Installed, pack: &Arc<jbk::reader::DirectoryPa
         for _ in 0..8.min(model.len()) {
             probes.push(key_of(rng.usize_below(model.len())));
         }
-        for probe in probes {
+        for (pi, probe) in probes.into_iter().enumerate() {
             // expected: position in the window of the (unique) entry carrying exactly this key
             let expected: Option<u32> = window.iter().position(|e| cmp_keys(&key_of(*e), &probe) == Ordering::Equal).map(|p| p as u32);
             let names: Vec<String> = keys.to_vec();
-            let values = || probe.iter().map(to_value).collect::<Vec<_>>();
-            let linear = builder.new_multiple_property_compare(names.clone(), values());
+            // integer probes alternate between the immediate and the deferred-word form, opposite forms for the two searches
+            let values = |word: bool| probe.iter().map(|v| to_value_as(v, word)).collect::<Vec<_>>();
+            let linear = builder.new_multiple_property_compare(names.clone(), values(pi % 2 == 1));
             let lin = index.find(&linear);
-            let binary = Ordered(builder.new_multiple_property_compare(names.clone(), values()));
+            let binary = Ordered(builder.new_multiple_property_compare(names.clone(), values(pi % 2 == 0)));
             let bin = index.find(&binary);
             out.obs.inc("lookups");
             if expected.is_some() {
